@@ -91,10 +91,14 @@ def jsonable(x, depth=0):
 def finish(ctx, wall, seed, selftest=None, explanation="", level_rule="", trusted=None, assumptions=None):
     """Prints verdict lines, writes reports and evidence; returns the exit status."""
     from .model import AnalysisError
-    for what, seen, fl in ctx.floors:
-        if seen < fl:
-            raise AnalysisError("floor: %s: %d seen, %d confirmed by hand (rule would pass vacuously)" % (what, seen, fl))
     known = [k for k in load_known() if k.get("property") == ctx.prop]
+    known_keys = {(k["rule"], k["construct"]) for k in known if k.get("status") == "known"}
+    has_unlisted = any((f.rule, f.construct) not in known_keys for f in ctx.findings)
+    if not has_unlisted:
+        # a floor only guards against passing vacuously; actual findings are reported in any case
+        for what, seen, fl in ctx.floors:
+            if seen < fl:
+                raise AnalysisError("floor: %s: %d seen, %d confirmed by hand (rule would pass vacuously)" % (what, seen, fl))
     known_active = {(k["rule"], k["construct"]): k for k in known if k.get("status") == "known"}
     unlisted, matched = [], []
     seen_keys = set()
